@@ -451,9 +451,15 @@ func (e *Engine) conv(tdst, tsrc types.Type, x value) value {
 		}
 	}
 	if _, ok := ud.(*types.Pointer); ok {
+		if x == nil { // zero unsafe.Pointer -> typed nil pointer
+			return (*value)(nil)
+		}
 		return x
 	}
 	if bd, ok := ud.(*types.Basic); ok && bd.Kind() == types.UnsafePointer {
+		if p, isP := x.(*value); isP && p == nil {
+			return nil
+		}
 		return x
 	}
 	if types.Identical(ud, us) {
